@@ -173,7 +173,7 @@ fn rand_tz_string(rng: &mut Rng) -> String {
 
 pub fn run(ctx: &Ctx) -> Report {
     let mut rep = Report::new("C10");
-    rep.rule = "cases = events (file, instant) -> (utoff, isdst, abbreviation, civil fields) and (file, local time) -> found instants recorded from tz-rs and replayed offline against CPython zoneinfo (posix tree) and glibc localtime (posix and right trees) reading the same vendored tzdata 2025b files: every transition -1/0/+1, 300 (thorough: 3000) random instants 1900-2500, far-future instants governed by the footer, every path of the index (1243) is loaded and compared at the first use of each local time type + 3 instants, whatever the tier; local times within 3 h of every transition since 1970 (15-minute steps and the exact boundaries); the footer rule's transitions in 2 (quick) / 40 (thorough) random years of 2038-2400 per file, located by bisection, with the instants -1/0/+1 and the local times around them; \
+    rep.rule = "cases = events (file, instant) -> (utoff, isdst, abbreviation, civil fields) and (file, local time) -> found instants recorded from tz-rs and replayed offline against CPython zoneinfo (posix tree) and glibc localtime (posix and right trees) reading the same vendored tzdata 2025b files: every transition -1/0/+1, 300 (thorough: 3000) random instants 1900-2500, far-future instants governed by the footer, every path of the index (1243) is loaded and compared at the first use of each local time type + 3 instants, and searched around its first and its last table transition (whatever their dates), whatever the tier; local times within 3 h of every transition since 1970 (15-minute steps and the exact boundaries); the footer rule's transitions in 2 (quick) / 40 (thorough) random years of 2038-2400 per file, located by bisection, with the instants -1/0/+1 and the local times around them; \
                 plus TZ descriptions (IANA footers and random well-formed ones on the sub-language where glibc is authoritative) x 30 instants against glibc's TZ-environment parser. distinct_nontrivial = distinct events recorded."
         .into();
     let dir = match ctx.opts.get("events") {
@@ -390,6 +390,43 @@ pub fn run(ctx: &Ctx) -> Report {
         }
         for u in [rng.range(-2_208_988_800, 2_000_000_000), 1_750_000_000, rng.range(2_200_000_000, 8_000_000_000)] {
             emit_fwd(&mut out, l, hash, path, &tz, &leaps, u, "every_file");
+        }
+        // mktime around the first and the last table transition of every path, whatever their dates: the interval
+        // before the first transition belongs to local time type 0, which no transition refers to, and the last one
+        // is where the footer takes over
+        let offsets = zs.offsets();
+        let mut ends: Vec<i64> = vec![];
+        for &(t, _) in zs.transitions.first().into_iter().chain(zs.transitions.last()) {
+            let x = leaps.switch(t);
+            if x > -12_000_000_000 && x < 12_000_000_000 && !ends.contains(&(x as i64)) {
+                ends.push(x as i64);
+            }
+        }
+        for (k, &x) in ends.iter().enumerate() {
+            let mut locals: Vec<i64> = vec![];
+            for &o in offsets.iter() {
+                if o.abs() <= 60_000 {
+                    for d in [-1i64, 0, 1] {
+                        locals.push(x + o as i64 + d);
+                    }
+                }
+            }
+            // the two offsets around the transition, and everything between their readings in 10-minute steps
+            let before = tz.find_local_time_type(x - 1).map(|t| t.ut_offset() as i64).unwrap_or(0);
+            let after = tz.find_local_time_type(x).map(|t| t.ut_offset() as i64).unwrap_or(before);
+            let (lo, hi) = (x + before.min(after) - 1800, x + before.max(after) + 1800);
+            let step = ((hi - lo) / 24).max(600);
+            let mut c = lo;
+            while c <= hi {
+                locals.push(c);
+                c += step;
+            }
+            locals.sort();
+            locals.dedup();
+            for c in locals {
+                emit_find(&mut out, l, hash, path, &tz, &leaps, &offsets, c);
+                l.class(if k == 0 { "find_event_at_the_first_transition_of_a_file" } else { "find_event_at_the_last_transition_of_a_file" });
+            }
         }
         l.class("every_file_of_the_index_loaded");
         let _ = std::fs::write(format!("{}/all-{:05}.jsonl", dir, i), out);
